@@ -84,8 +84,12 @@ type Stats struct {
 	Deletion              bool
 	CommitIntoOpenedFile  bool
 	StoreLogsOK           int
+	StoreLogsErr          int
 	SetOK                 int
 	Syscalls              int
+	// FsyncInStoreLogs lists, for the thread that issues the markers, the ordinals
+	// (1-based, among that thread's fsync calls) of the fsyncs issued inside StoreLogs calls.
+	FsyncInStoreLogs []int
 }
 
 // Check replays the trace of a workload that ran in dir with the given segment size.
@@ -108,6 +112,8 @@ func Check(calls []Sys, dir string, segSize int) (*Violation, Stats) {
 	renameDurable := true
 	segCreatedSinceRename := false
 	var curOp, curPhase string
+	markerTid := ""
+	fsyncOrd := 0
 	vio := func(sig, format string, a ...any) *Violation {
 		return &Violation{Sig: sig, Msg: fmt.Sprintf(format, a...)}
 	}
@@ -126,6 +132,10 @@ func Check(calls []Sys, dir string, segSize int) (*Violation, Stats) {
 			}
 			curOp, curPhase = parts[1], parts[2]
 			step := parts[0]
+			markerTid = c.Tid
+			if curOp == "StoreLogs" && curPhase == "err" {
+				st.StoreLogsErr++
+			}
 			if curOp == "Open" && curPhase == "begin" {
 				instance++
 			}
@@ -231,7 +241,20 @@ func Check(calls []Sys, dir string, segSize int) (*Violation, Stats) {
 			fs.writtenSince = true
 			fs.everWritten = true
 		case "fsync", "fdatasync":
+			if c.Name == "fsync" && c.Tid == markerTid {
+				fsyncOrd++
+				if curOp == "StoreLogs" && curPhase == "begin" {
+					st.FsyncInStoreLogs = append(st.FsyncInStoreLogs, fsyncOrd)
+				}
+			}
 			m := reFdPath.FindStringSubmatch(c.Args)
+			if m != nil && failed && m[2] == dir {
+				// the directory fsync of a Delete failed: that Delete reports an error, i.e. the
+				// deletion is not "reported done" (the WAL only logs it); nothing is owed for it
+				for p := range pendingUnlink {
+					delete(pendingUnlink, p)
+				}
+			}
 			if m == nil || failed {
 				continue
 			}
